@@ -764,6 +764,9 @@ func (e *Env) call(x ECall) Binding {
 			b = sliceBase(p.T)
 		}
 		return Binding{Term{fmt.Sprintf("(>= (rootid %s) alloc@0)", b.S), SBool}, types.Typ[types.Bool]}
+	case "substr":
+		a, lo, hi := arg(0), arg(1), arg(2)
+		return Binding{app(SStr, "str_sub", a.T, lo.T, hi.T), types.Typ[types.String]}
 	case "samearray":
 		a, b := arg(0), arg(1)
 		return Binding{eq(sliceBase(a.T), sliceBase(b.T)), types.Typ[types.Bool]}
